@@ -23,7 +23,7 @@ type Worker struct {
 	beat     atomic.Int64
 	active   atomic.Bool
 	_        [40]byte
-	Done     func() // optional: called when the worker has no more units (flush local statistics)
+	Done     func()     // optional: called when the worker has no more units (flush local statistics)
 	Describe func() any // replay description of the case currently executing (read only when the worker is stuck)
 }
 
